@@ -3,7 +3,11 @@
 package c17sim
 
 import (
+	"bytes"
 	"fmt"
+	"strings"
+
+	cs "github.com/lianxiangcloud/linkchain/consensus"
 
 	"verif/h/internal/core"
 	"verif/h/internal/detsim"
@@ -27,7 +31,7 @@ func init() {
 		Init: core.QuietLogs,
 		Floors: func(tier string) map[string]int64 {
 			// about half of the minimum observed over VERIF_SEED=1..7 at quick (1940)
-			return map[string]int64{"proposer_views_compared": 1400, "proposer_views_observed_round_gt0": 1000}
+			return map[string]int64{"proposer_views_compared": 1400, "proposer_views_observed_round_gt0": 1000, "split_commit_round_cases_achieved": 8}
 		},
 	})
 }
@@ -35,20 +39,77 @@ func init() {
 func run(c *core.Ctx) {
 	r := c.Rng
 	n := []int{4, 5, 7}[r.Intn(3)]
+	if c.Index%2 == 1 {
+		n = 4
+	}
 	powers := make([]int64, n)
 	byz := make([]bool, n)
 	for i := range powers {
 		powers[i] = int64(1 + r.Intn(9))
+		if c.Index%2 == 1 {
+			powers[i] = 10 // the scripted split below is written for four equal validators
+		}
 	}
-	sim, err := detsim.New(r.Split(), detsim.Config{Powers: powers, Byz: byz, Heights: 3, MaxSteps: 1200,
-		Loss: []float64{0.1, 0.25, 0.4}[r.Intn(3)], Eager: []float64{0.05, 0.2}[r.Intn(2)], StaleTO: 0.05, DupProb: 0.05, ByzRate: 0, Scratch: c.Scratch})
+	conf := detsim.Config{Powers: powers, Byz: byz, Heights: 3, MaxSteps: 1200,
+		Loss: []float64{0.1, 0.25, 0.4}[r.Intn(3)], Eager: []float64{0.05, 0.2}[r.Intn(2)], StaleTO: 0.05, DupProb: 0.05, ByzRate: 0, Scratch: c.Scratch}
+	if c.Index%2 == 1 {
+		// the scripted split below is the only loss: everything else arrives, so that heights are reached
+		conf.Loss, conf.Eager, conf.MaxSteps, conf.Heights = 0, 0.03, 3000, 4
+	}
+	sim, err := detsim.New(r.Split(), conf)
 	if err != nil {
 		c.Inconclusive("simulator setup failed: " + err.Error())
 		return
 	}
+	split := c.Index%2 == 1
+	if split {
+		// scripted split of the commit round: at one height the round-0 precommits reach only one node, which
+		// commits in round 0 and moves on; the others time out and commit the same block in a later round. Both
+		// commits are valid. The next proposal carries one of them and every node has to judge the record about
+		// the previous height's proposer (fault-validator evidence) by the commit the block carries, not by the
+		// round it happened to see itself.
+		// (one node misses the round-0 proposal and precommits nil, the lucky node's own precommit reaches nobody
+		// else: the lucky node sees +2/3 for the block, the others see +2/3 of anything, time out and go on)
+		lucky := sim.Nodes[r.Intn(len(sim.Nodes))].ID
+		unlucky := sim.Nodes[r.Intn(len(sim.Nodes))].ID
+		for unlucky == lucky {
+			unlucky = sim.Nodes[r.Intn(len(sim.Nodes))].ID
+		}
+		luckyAddr := sim.Vals[lucky].Priv.PubKey().Address()
+		hS := uint64(1 + r.Intn(2))
+		sim.DropFilter = func(pm *detsim.PoolMsg, n *detsim.Node) bool {
+			if pm.Height != hS || pm.Round != 0 {
+				return false
+			}
+			switch pm.Kind {
+			case "proposal", "part":
+				return n.ID == unlucky
+			case "precommit":
+				if vm, ok := pm.Msg.(*cs.VoteMessage); ok && vm.Vote != nil && bytes.Equal(vm.Vote.ValidatorAddress, luckyAddr) {
+					return n.ID != lucky
+				}
+			}
+			return false
+		}
+		c.Count("split_commit_round_cases", 1)
+	}
 	sim.Run()
 	for k, v := range sim.Mon.Counters {
 		c.Count(k, v)
+	}
+	if split && c.Verbose {
+		for _, n := range sim.Nodes {
+			rs := n.CS.GetRoundState()
+			c.Logf("node v%d: height %d round %d step %v locked=%v; steps=%d timeouts=%d delivered=%d catchups=%d", n.ID, rs.Height, rs.Round, rs.Step, rs.LockedBlock != nil, sim.Steps, sim.TimeoutsFired, sim.Delivered, sim.CatchUps)
+		}
+	}
+	if split && sim.Mon.Counters["heights_committed_in_different_rounds_by_different_nodes"] > 0 {
+		c.Count("split_commit_round_cases_achieved", 1)
+		for _, v := range sim.Mon.Violations {
+			if strings.HasPrefix(v.Key, "halt/") {
+				c.Violation("commit-round-path-dependence/"+v.Key, "nodes hold valid commits of the same block from different rounds; afterwards: "+v.Detail, map[string]interface{}{"powers": powers, "steps": sim.Steps})
+			}
+		}
 	}
 	for _, v := range sim.Mon.ProposerMismatch {
 		c.Violation(v.Key, v.Detail, map[string]interface{}{"powers": powers, "steps": sim.Steps})
